@@ -132,6 +132,10 @@ type nodeState struct {
 	// so everything later validated against that wallet's checkpoint is a consequence of one
 	// root cause (merged double spend or trusted exemption, then truncation), reported under its own cause.
 	tainted map[string]bool
+	// gross: wallets whose checkpoint differs from the net flow of the stored vertices because the
+	// gross in- or outflow of the stored part does not fit the amount type (known C07 finding);
+	// later validation against that wallet is a consequence of it.
+	gross map[string]bool
 }
 
 func (w *World) nstate(node int) *nodeState {
@@ -140,7 +144,7 @@ func (w *World) nstate(node int) *nodeState {
 	}
 	st := w.nstates[node]
 	if st == nil {
-		st = &nodeState{confirmedSeen: map[Hash]bool{}, baseline: map[Hash]bool{}, everLive: map[Hash]bool{}, tainted: map[string]bool{}}
+		st = &nodeState{confirmedSeen: map[Hash]bool{}, baseline: map[Hash]bool{}, everLive: map[Hash]bool{}, tainted: map[string]bool{}, gross: map[string]bool{}}
 		w.nstates[node] = st
 	}
 	return st
@@ -161,6 +165,23 @@ func (w *World) checkSnap(cur *Snap) {
 	w.oracleC10(cur)
 	w.oracleC05hist(cur)
 	w.oracleC01(cur, prev, st)
+	// C07 at all times (also under natural truncation, which no step brackets): what was once
+	// confirmed stays in the ledger, and the checkpoint equals the net flow of what is stored
+	if prev != nil && prev.Loaded && len(prev.Stored) < len(cur.Stored) {
+		// a truncation happened between the two snapshots: nothing that was confirmed before may be gone.
+		// (Outside truncation a vertex that lost its only child can be re-validated and dropped: not C07's business.)
+		for h := range prev.confirmed() {
+			if cur.get(h) == nil {
+				w.violate("C07", "lost", "confirmed-vertex-lost-by-truncation", cur.Node, "vertex %s", hx(h))
+			}
+		}
+	}
+	if len(cur.Stored) > 0 && (prev == nil || len(prev.Stored) != len(cur.Stored)) {
+		w.checkCheckpointFunds(cur)
+		if prev != nil && len(prev.Stored) < len(cur.Stored) {
+			w.probe("c07-stored-set-grew")
+		}
+	}
 	for h := range cur.Live {
 		st.everLive[h] = true
 	}
@@ -184,12 +205,23 @@ func (w *World) noteTainted(s *Snap, st *nodeState) {
 		}
 	}
 	for a := range addrs {
-		if a == gi || st.tainted[a] {
+		if a == gi {
 			continue
 		}
-		if in, out := flows(a, stored); in.Cmp(out) < 0 {
+		in, out := flows(a, stored)
+		if !st.tainted[a] && in.Cmp(out) < 0 {
 			st.tainted[a] = true
 			w.probe("checkpoint-cannot-represent-overdrawn-wallet")
+		}
+		if !st.gross[a] && in.Cmp(out) >= 0 && (in.Cmp(maxMel) >= 0 || out.Cmp(maxMel) >= 0) {
+			got := new(big.Int)
+			if f, ok := s.Funds[a]; ok {
+				got = melVal(f)
+			}
+			if got.Cmp(new(big.Int).Sub(in, out)) != 0 {
+				st.gross[a] = true
+				w.probe("checkpoint-cannot-represent-gross-flow")
+			}
 		}
 	}
 }
@@ -447,6 +479,9 @@ func (w *World) oracleC01(cur, prev *Snap, st *nodeState) {
 			if w.wasRootTip(prev, h) {
 				cause = "tip-was-graph-root-after-truncation"
 			}
+			if st.gross[v.Transaction.IssuerAddress] {
+				cause = "checkpoint-gross-flow-not-representable"
+			}
 			if st.tainted[v.Transaction.IssuerAddress] {
 				cause = "checkpoint-cannot-represent-overdrawn-history"
 			}
@@ -473,6 +508,7 @@ func (w *World) checkTipsDropped(before, after *Snap) {
 		return
 	}
 	n := before.Node
+	w.noteTainted(before, w.nstate(n)) // the truncation loop may have run since the last observation
 	for _, l := range before.Leaves {
 		h, ok := idHash(l)
 		if !ok {
@@ -490,6 +526,12 @@ func (w *World) checkTipsDropped(before, after *Snap) {
 		if w.nstate(n).tainted[sv.V.Transaction.IssuerAddress] {
 			if _, still := after.Live[h]; still {
 				w.violate("C01", "not-dropped", "checkpoint-cannot-represent-overdrawn-history", n, "tip %s in=%s out=%s", hx(h), in, out)
+			}
+			continue
+		}
+		if w.nstate(n).gross[sv.V.Transaction.IssuerAddress] {
+			if _, still := after.Live[h]; still {
+				w.violate("C01", "not-dropped", "checkpoint-gross-flow-not-representable", n, "tip %s in=%s out=%s", hx(h), in, out)
 			}
 			continue
 		}
